@@ -539,6 +539,36 @@ def _canonicalise_branches(tree):
     return count
 
 
+def _canonicalise_tuple_assign(tree):
+    """`a, b = E1, E2` (plain, distinct names on the left, as many values on the right, no value reading a name that stands EARLIER on the left, no starred element) is read as
+    `a = E1 ; b = E2`: the values do not depend on the targets, so the joint and the sequential form bind the same values - no rule depends on whether two
+    independent assignments were written on one line."""
+    count = 0
+    for owner in ast.walk(tree):
+        blks = [(owner, fld) for fld in ("body", "orelse", "finalbody") if isinstance(getattr(owner, fld, None), list)]
+        hs = [(h, "body") for h in owner.handlers] if isinstance(owner, ast.Try) else []
+        for o, fld in blks + hs:
+            blk = getattr(o, fld)
+            if not (blk and isinstance(blk[0], ast.stmt)):
+                continue
+            out = []
+            for st in blk:
+                if (isinstance(st, ast.Assign) and len(st.targets) == 1 and isinstance(st.targets[0], ast.Tuple) and isinstance(st.value, ast.Tuple)
+                        and len(st.targets[0].elts) == len(st.value.elts) >= 2 and all(isinstance(t, ast.Name) for t in st.targets[0].elts)
+                        and not any(isinstance(v, ast.Starred) for v in st.value.elts)):
+                    tg = [t.id for t in st.targets[0].elts]
+                    # value j may read its own and later targets (still unassigned when it is evaluated in the sequential form), never an earlier one
+                    if len(set(tg)) == len(tg) and not any(isinstance(n, ast.Name) and n.id in tg[:j] for j, v in enumerate(st.value.elts) for n in ast.walk(v)) \
+                            and not any(isinstance(n, (ast.NamedExpr, ast.Lambda, ast.Yield, ast.Await)) for v in st.value.elts for n in ast.walk(v)):
+                        for t, v in zip(st.targets[0].elts, st.value.elts):
+                            out.append(ast.copy_location(ast.Assign(targets=[t], value=v), st))
+                        count += 1
+                        continue
+                out.append(st)
+            setattr(o, fld, out)
+    return count
+
+
 def _canonicalise_temporaries(tree):
     """`t = E ; return t` is read as `return E`, and `t = E ; <target> = t` as `<target> = E`, when t is a local that is assigned once and read
     once (here): the evaluation order is the same in both forms whatever E does, so no rule depends on whether a returned / stored value was
@@ -630,6 +660,7 @@ class Module:
             else _canonicalise_attr_loops(self.tree)
         self.shape0_canonicalised = 0 if (os.environ.get("VERIF_NO_SHAPE_CANON") == "1" or ".shape" not in src) else _canonicalise_shape0(self.tree)
         self.subscripts_canonicalised = 0 if os.environ.get("VERIF_NO_SUBSCRIPT_CANON") == "1" else _canonicalise_subscripts(self.tree)
+        self.tuples_canonicalised = 0 if os.environ.get("VERIF_NO_TUPLE_CANON") == "1" else _canonicalise_tuple_assign(self.tree)
         self.branches_canonicalised = 0 if os.environ.get("VERIF_NO_BRANCH_CANON") == "1" else _canonicalise_branches(self.tree)
         self.temporaries_canonicalised = 0 if os.environ.get("VERIF_NO_TEMP_CANON") == "1" else _canonicalise_temporaries(self.tree)
         self.imports = {}  # local name -> ("module", dotted) | ("from", module, attr)
